@@ -296,4 +296,45 @@ func init() {
 		Variant{Name: "ack relay loop ignores the latch", Property: "C06", File: ast,
 			Old: "\t\tvar req *adminservice.StreamWorkflowReplicationMessagesRequest\n\t\tvar err error\n\t\tselect {\n\t\tcase <-f.shutdownChan.Channel():\n\t\t\treturn\n\t\tcase valueWithError := <-dataChan:\n\t\t\treq = valueWithError.val\n\t\t\terr = valueWithError.err\n\t\t}", New: "\t\tvar req *adminservice.StreamWorkflowReplicationMessagesRequest\n\t\tvar err error\n\t\tvalueWithError := <-dataChan\n\t\treq = valueWithError.val\n\t\terr = valueWithError.err\n", Expect: "O6.2"},
 	)
+	// ---- C07
+	cmn := "common/common.go"
+	addVariants(
+		Variant{Name: "Local/Remote shard counts swapped in getLCMParameters", Property: "C07", File: cc,
+			Old: "\t\tif inverse {\n\t\t\treturn LCMParameters{\n\t\t\t\tLCM:              lcm,\n\t\t\t\tTargetShardCount: shardCountConfig.LocalShardCount,", New: "\t\tif inverse {\n\t\t\treturn LCMParameters{\n\t\t\t\tLCM:              lcm,\n\t\t\t\tTargetShardCount: shardCountConfig.RemoteShardCount,", Expect: "O7.1"},
+		Variant{Name: "inbound server built with inverse=false", Property: "C07", File: cc,
+			Old: "\t\tlcmParameters:     getLCMParameters(connConfig.ShardCountConfig, true),", New: "\t\tlcmParameters:     getLCMParameters(connConfig.ShardCountConfig, false),", Expect: "O7.1"},
+		Variant{Name: "mapShardIDUnique arguments swapped", Property: "C07", File: ast,
+			Old: "mapShardIDUnique(lcmParameters.LCM, lcmParameters.TargetShardCount, sourceClusterShardID.ShardID)", New: "mapShardIDUnique(lcmParameters.TargetShardCount, lcmParameters.LCM, sourceClusterShardID.ShardID)", Expect: "O7.3"},
+		Variant{Name: "client shard id taken from the initiator's own id", Property: "C07", File: ast,
+			Old: "\t\t\tShardID:   sourceClusterShardID.ShardID, // proxy fake shard id", New: "\t\t\tShardID:   targetClusterShardID.ShardID, // proxy fake shard id", Expect: "O7.3"},
+		Variant{Name: "DescribeCluster override skipped when an FVI override exists", Property: "C07", File: adm,
+			Old: "\tcase config.ShardCountLCM:\n\t\t// Present a fake number of shards. In LCM mode, we present the least\n\t\t// common multiple of both cluster shard counts.\n\t\tresp.HistoryShardCount = s.lcmParameters.LCM", New: "\tcase config.ShardCountLCM:\n\t\t// Present a fake number of shards. In LCM mode, we present the least\n\t\t// common multiple of both cluster shard counts.\n\t\tif s.overrides.FVI == 0 {\n\t\t\tresp.HistoryShardCount = s.lcmParameters.LCM\n\t\t}", Expect: "O7.2"},
+		Variant{Name: "server cluster id swapped with client cluster id", Property: "C07", File: ast,
+			Old: "\t\ttargetMetadata.Set(history.MetadataKeyServerClusterID, strconv.Itoa(int(newSourceShardID.ClusterID)))", New: "\t\ttargetMetadata.Set(history.MetadataKeyServerClusterID, strconv.Itoa(int(newTargetShardID.ClusterID)))", Expect: "O7.3"},
+		Variant{Name: "first of several mapped shards accepted", Property: "C07", File: ast,
+			Old: "\tif len(targetShardID) != 1 {", New: "\tif len(targetShardID) < 1 {", Expect: "O7.4"},
+		Variant{Name: "LCM computed as the plain product", Property: "C07", File: cmn,
+			Old: "\treturn a * b / GCD(a, b)", New: "\treturn a * b / GCD(a, a)", Expect: "O7.4"},
+		Variant{Name: "server shard id key not set", Property: "C07", File: ast,
+			Old: "\t\ttargetMetadata.Set(history.MetadataKeyServerShardID, strconv.Itoa(int(newSourceShardID.ShardID)))\n", New: "", Expect: "O7.3"},
+	)
+	// ---- C09
+	addVariants(
+		Variant{Name: "true returned after a failed forward", Property: "C09", File: shm,
+			Old: "\t\t\t\t\t\tlogger.Error(\"Failed to forward replication messages to shard owner via intra-proxy\", tag.Error(err), tag.NewStringTag(\"owner\", owner), tag.NewStringTag(\"addr\", addr))\n\t\t\t\t\t\treturn false", New: "\t\t\t\t\t\tlogger.Error(\"Failed to forward replication messages to shard owner via intra-proxy\", tag.Error(err), tag.NewStringTag(\"owner\", owner), tag.NewStringTag(\"addr\", addr))\n\t\t\t\t\t\treturn true", Expect: "O9.1"},
+		Variant{Name: "After instead of Before in NotifyMsg", Property: "C09", File: shm,
+			Old: "\t\t\t\tif localShard.Created.Before(msg.Timestamp) {", New: "\t\t\t\tif localShard.Created.After(msg.Timestamp) {", Expect: "O9.2"},
+		Variant{Name: "remote forward attempted even after local delivery", Property: "C09", File: shm,
+			Old: "\t\t\t\tlogger.Debug(\"Delivered messages to local shard owner\")\n\t\t\t\tdelivered = true\n\t\t\tcase <-shutdownChan.Channel():\n\t\t\t\t// Shutdown signal received\n\t\t\t}\n\t\t}()\n\t\tif delivered {\n\t\t\treturn true\n\t\t}", New: "\t\t\t\tlogger.Debug(\"Delivered messages to local shard owner\")\n\t\t\t\tdelivered = true\n\t\t\tcase <-shutdownChan.Channel():\n\t\t\t\t// Shutdown signal received\n\t\t\t}\n\t\t}()\n\t\tif delivered && sm.memberlistConfig == nil {\n\t\t\treturn true\n\t\t}", Expect: "O9.1"},
+		Variant{Name: "leaver's state kept", Property: "C09", File: shm,
+			Old: "\t\tsed.manager.remoteNodeStatesMu.Lock()\n\t\tdelete(sed.manager.remoteNodeStates, node.Name)\n\t\tsed.manager.remoteNodeStatesMu.Unlock()\n", New: "", Expect: "O9.3"},
+		Variant{Name: "delivered set when shutdown won the select", Property: "C09", File: shm,
+			Old: "\t\t\t\tlogger.Debug(\"Delivered ACK to local shard owner\")\n\t\t\t\tdelivered = true\n\t\t\tcase <-shutdownChan.Channel():\n\t\t\t\t// Shutdown signal received\n", New: "\t\t\t\tlogger.Debug(\"Delivered ACK to local shard owner\")\n\t\t\t\tdelivered = true\n\t\t\tcase <-shutdownChan.Channel():\n\t\t\t\t// Shutdown signal received\n\t\t\t\tdelivered = true\n", Expect: "O9.1"},
+		Variant{Name: "intra-proxy ack send reports success without a stream", Property: "C09", File: ipr,
+			Old: "\t\t\treturn nil\n\t\t}\n\t}\n\treturn fmt.Errorf(\"peer not found\")", New: "\t\t\treturn nil\n\t\t}\n\t}\n\treturn nil", Expect: "O9.4"},
+		Variant{Name: "eviction passes the announcement's timestamp", Property: "C09", File: shm,
+			Old: "\t\t\t\t\tsd.manager.UnregisterShard(msg.ClientShard, localShard.Created)", New: "\t\t\t\t\tsd.manager.UnregisterShard(msg.ClientShard, msg.Timestamp)", Expect: "O9.2"},
+		Variant{Name: "owner lookup before trying the local stream", Property: "C09", File: shm,
+			Old: "\tlogger = log.With(logger, tag.NewStringTag(\"task-target-shard\", ClusterShardIDtoString(targetShard)))\n\n\t// Try local delivery first\n\tif ch, ok := sm.GetRemoteSendChan(targetShard); ok {", New: "\tlogger = log.With(logger, tag.NewStringTag(\"task-target-shard\", ClusterShardIDtoString(targetShard)))\n\n\tif owner, ok := sm.getShardOwner(targetShard); ok && owner != sm.GetNodeName() {\n\t\tif mgr := sm.GetIntraProxyManager(); mgr != nil {\n\t\t\treturn mgr.sendReplicationMessages(context.Background(), owner, targetShard, routedMsg.SourceShard, routedMsg.Resp) == nil\n\t\t}\n\t}\n\t// Try local delivery first\n\tif ch, ok := sm.GetRemoteSendChan(targetShard); ok {", Expect: "O9.1"},
+	)
 }
